@@ -16,7 +16,8 @@ theorem PR.of_same {a r r' : Raft} (h : PR a r) (hs : r'.state = r.state) (hp : 
     (hro : r'.readOnly = r.readOnly) (hm : r'.msgs = r.msgs)
     (hl : r.raftLog.lastIndex ≤ r'.raftLog.lastIndex)
     (hc : r.raftLog.committed ≤ r'.raftLog.committed) : PR a r' := by
-  refine ⟨fun c => ?_, fun c p hp' => ?_, fun x hx hty => ?_, fun x hx hty => ?_, ?_⟩
+  refine ⟨fun c => ?_, fun c p hp' => ?_, fun x hx hty => ?_, fun x hx hty => ?_, ?_,
+    by rw [hm]; exact h.qf⟩
   · rw [hs] at c; rw [hm, hp]
     exact (h.po c).imp (fun x => x) (fun d => d.mono hl)
   · rw [hs] at c; rw [hro] at hp'
@@ -32,8 +33,10 @@ theorem PR.of_same {a r r' : Raft} (h : PR a r) (hs : r'.state = r.state) (hp : 
     · exact .inr (Nat.le_trans d hc)
   · rw [hm]; exact h.sn
 
-theorem PR.rebase {a a' r : Raft} (h : PR a r) (hm : a'.msgs = a.msgs) : PR a' r :=
-  ⟨h.po, h.rd, by rw [hm]; exact h.qa, by rw [hm]; exact h.qr, by rw [hm]; exact h.sn⟩
+theorem PR.rebase {a a' r : Raft} (h : PR a r) (hm : a'.msgs = a.msgs)
+    (hl : a'.raftLog = a.raftLog) : PR a' r :=
+  ⟨h.po, h.rd, by rw [hm]; exact h.qa, by rw [hm]; exact h.qr, by rw [hm]; exact h.sn,
+    by rw [hm, hl]; exact h.qf⟩
 
 /-- `RawNode::step` -/
 theorem rawStep_pr {a r r' : Raft} {m : Message} {e : Option RaftError}
@@ -74,7 +77,7 @@ theorem call_pr (st st' : NState) (rnd : Option Nat) (op : NodeOp) (res : OpRes)
     PW.start hinv hnb hpo hrd
   have hinv' : ({ st.raft with nextRand := rnd } : Raft).raftLog.Inv := hinv
   have hsn' : ({ st.raft with nextRand := rnd } : Raft).raftLog.unstable.snapshot = none := hsn
-  refine PR.rebase (a := ({ st.raft with nextRand := rnd } : Raft)) (a' := st.raft) ?_ rfl
+  refine PR.rebase (a := ({ st.raft with nextRand := rnd } : Raft)) (a' := st.raft) ?_ rfl rfl
   cases op with
   | tick =>
     simp only [applyOp] at h
